@@ -87,6 +87,74 @@ def doTxw (args : List String) : String :=
     (if st.out.isEmpty then "-" else " ".intercalate st.out) ++ s!" | {v} rex={st.rexmits} q={st.outQ.length}"
   | _, _ => "bad-args"
 
+def optU16? (s : String) : Option (Option UInt16) := if s = "-" then some none else (u16? s).map some
+
+def parseRec (t : String) : Option SRec :=
+  match fields t with
+  | [tsn, len, sent, tc, mr, ab, fr, nr, frms, inf, ack, maxr, exp] => do
+    some { tsn := ← u32? tsn, len := ← len.toNat?, sentMs := ← sent.toNat?, transmitCount := ← tc.toNat?,
+           missingReports := ← mr.toNat?, abandoned := ab = "1", fastRetransmit := fr = "1",
+           needsRetransmit := nr = "1", frMs := ← (if frms = "-" then some none else frms.toNat?.map some),
+           inFlight := inf = "1", acked := ack = "1", maxRetransmits := ← optU16? maxr, hasExpiry := exp = "1" }
+  | _ => none
+
+/-- times near "now" (100 s after the base) are printed as `N` -/
+def showMs (v : Nat) : String := if 50000 ≤ v && v < 150000 then "N" else toString v
+
+def showRec (r : SRec) : String :=
+  let fr := match r.frMs with | none => "-" | some v => showMs v
+  let mx := match r.maxRetransmits with | none => "-" | some v => toString v
+  s!"{r.tsn},{r.len},{showMs r.sentMs},{r.transmitCount},{r.missingReports},{b01 r.abandoned},{b01 r.fastRetransmit},{b01 r.needsRetransmit},{fr},{b01 r.inFlight},{b01 r.acked},{mx},{b01 r.hasExpiry}"
+
+def showQ (q : List SRec) : String := if q.isEmpty then "-" else " ".intercalate (q.map showRec)
+
+def parseOut (t : String) : Option OChunk :=
+  match fields t with
+  | [sid, ppid, ssn, fl, len, mr, exp] => do
+    some { sid := ← u16? sid, ppid := ← u32? ppid, ssn := ← u16? ssn, flags := ← u8? fl,
+           payload := List.replicate (← len.toNat?) 0, maxRetransmits := ← optU16? mr, hasExpiry := exp = "1" }
+  | _ => none
+
+/-- `t3 <cwnd> <flight> <rto> <maxrtx> rec…` → `handle_timeout` at time 100000 -/
+def doT3 (args : List String) : String :=
+  match args with
+  | cwnd :: fl :: rto :: mx :: recs =>
+    match cwnd.toNat?, fl.toNat?, rto.toNat?, mx.toNat?, (recs.filter (· ≠ "-")).mapM parseRec with
+    | some c, some f, some rto, some mx, some q =>
+      let s := handleTimeout { sentQ := q, cwnd := c, flight := f } 100000 rto mx
+      s!"cwnd={s.cwnd} flight={s.flight} | {showQ s.sentQ}"
+    | _, _, _, _, _ => "bad-args"
+  | _ => "bad-args"
+
+/-- `tlp <flight> rec…` → `maybe_send_tlp_probe` -/
+def doTlp (args : List String) : String :=
+  match args with
+  | fl :: recs =>
+    match fl.toNat?, (recs.filter (· ≠ "-")).mapM parseRec with
+    | some f, some q =>
+      let s := tlpProbe { sentQ := q, flight := f } 100000
+      s!"flight={s.flight} | {showQ s.sentQ}"
+    | _, _ => "bad-args"
+  | _ => "bad-args"
+
+/-- `tx <cwnd> <flight> <rwnd> <nextTsn> <sack> <maxBurst> rec… / out…` → one `transmit()` -/
+def doTx (args : List String) : String :=
+  match args with
+  | cwnd :: fl :: rw :: nt :: sk :: mb :: rest =>
+    let recT := rest.takeWhile (· ≠ "/")
+    let outT := (rest.dropWhile (· ≠ "/")).drop 1
+    match cwnd.toNat?, fl.toNat?, rw.toNat?, u32? nt, mb.toNat?, (recT.filter (· ≠ "-")).mapM parseRec, outT.mapM parseOut with
+    | some c, some f, some rw, some nt, some mb, some q, some o =>
+      let r := transmit { sentQ := q, outQ := o, cwnd := c, flight := f, peerRwnd := rw, nextTsn := nt, maxBurst := mb } (sk = "1") 100000
+      let lens := r.2.map fun
+        | .sack => 16
+        | .rexmit _ l => l
+        | .fresh ch => (encData ch).length
+      let pk := (batch (lens.map fun l => List.replicate l (0 : UInt8))).length
+      s!"bytes={lens.sum} pk={pk} flight={r.1.flight} next={r.1.nextTsn} outq={r.1.outQ.length} | {showQ r.1.sentQ}"
+    | _, _, _, _, _, _, _ => "bad-args"
+  | _ => "bad-args"
+
 def handle (stream : String) (args : List String) : String :=
   match stream with
   | "batch" => doBatch args
@@ -95,6 +163,9 @@ def handle (stream : String) (args : List String) : String :=
   | "sackchunk" => doSackChunk args
   | "wire" => doWire args
   | "txw" => doTxw args
+  | "t3" => doT3 args
+  | "tlp" => doTlp args
+  | "tx" => doTx args
   | _ => "bad-stream"
 
 end RtcModel.Drv.C13
